@@ -73,13 +73,14 @@ VARIABLES truth, now,
           pc, slot, i, res,   \* run goroutine: "idle" | "sched" | "cur" | "loop" | "nxt"; slot being scheduled; loop index; resolve attempt
           resolvedEpoch, duties, byEpoch,     \* Scheduler fields (duties: <<slot, type>> -> [validator -> definition])
           gor, gid,       \* goroutines spawned and not finished; id counter
-          triggered,      \* history: duty subscriber calls [slot, type, defs, dl]
+          triggered,      \* history: duty subscriber calls [slot, type, defs, dl, at, mode]: dl = the deadline handed to delayFunc
+                          \* (mode "delay"), or mode "wait": the goroutine slept on the clock itself and at = the clock at the call
           sched,          \* history: scheduleSlot calls [slot, covered]
           resolvedAt,     \* history: epoch -> time of its first complete resolution
           elig, eligAll,  \* history: epoch -> validators active/activating in some / every validators answer used for it
           feat,           \* "off" | "on" (fetch_att_on_block) | "delay" (fetch_att_on_block_with_delay, alone or with the other)
           marked,         \* eventTriggeredAttestations: set of slots
-          fetched         \* history: FetchOnly calls [slot, defs, at]
+          fetched         \* history: FetchOnly calls [slot, defs, late] (late: the slot's attester duty had been triggered)
 fvars == <<feat, marked, fetched>>
 vars == <<truth, now, tnext, pc, slot, i, res, resolvedEpoch, duties, byEpoch, gor, gid, triggered, sched, resolvedAt,
           elig, eligAll, fvars>>
@@ -244,7 +245,7 @@ ReadyGor == {g \in gor : Ready(g)}
 \* the duty subscribers are called with (a clone of) the definition set; after a wait the slot is marked first
 Fire(g, defs) == /\ g \in gor /\ g.kind = "duty" /\ g.stage \in {"fire", "wait"}
                  /\ gor' = gor \ {g}
-                 /\ LET rec == [slot |-> g.slot, type |-> g.type, defs |-> defs, dl |-> g.dl, at |-> now,
+                 /\ LET rec == [slot |-> g.slot, type |-> g.type, defs |-> defs, dl |-> g.dl, at |-> IF g.stage = "wait" THEN now ELSE None,
                                 mode |-> IF g.stage = "wait" THEN "wait" ELSE "delay"] IN
                     triggered' = IF Variant = "dupfire" THEN triggered \o <<rec, rec>> ELSE Append(triggered, rec)
                  /\ marked' = IF g.stage = "wait" THEN marked \cup {g.slot} ELSE marked
@@ -257,7 +258,8 @@ CanFetch(n) == FeatOn /\ <<n, "att">> \in DOMAIN duties /\ n \notin marked
 HeadEvent(n, reg) ==
   /\ IF reg /\ CanFetch(n)
        THEN /\ marked' = marked \cup {n}
-            /\ fetched' = Append(fetched, [slot |-> n, defs |-> duties[<<n, "att">>], at |-> now])
+            /\ fetched' = Append(fetched, [slot |-> n, defs |-> duties[<<n, "att">>],
+                                           late |-> \E b \in DOMAIN triggered : triggered[b].slot = n /\ triggered[b].type = "att"])
        ELSE UNCHANGED <<marked, fetched>>
   /\ UNCHANGED <<truth, now, tnext, pc, slot, i, res, resolvedEpoch, duties, byEpoch, gor, gid, triggered, sched,
                  resolvedAt, elig, eligAll, feat>>
@@ -329,8 +331,7 @@ TruthSane == /\ \A d, e \in truth.att : (d.v = e.v /\ Epoch(d.slot) = Epoch(e.sl
 \* slot with attester definitions, never after that slot's attester duty reached the subscribers
 FetchOnce == \A a, b \in DOMAIN fetched : a < b => fetched[a].slot # fetched[b].slot
 FetchNotAfterTrigger == \A a \in DOMAIN fetched : /\ FeatOn /\ fetched[a].defs # Empty
-                                                   /\ \A b \in TIdx : (triggered[b].type = "att" /\ triggered[b].slot = fetched[a].slot)
-                                                                         => fetched[a].at <= triggered[b].at
+                                                   /\ ~fetched[a].late
 \* head events and FetchOnly calls never reach the duty subscribers: with the flags off nothing is marked or fetched
 OffInert == feat = "off" => marked = {} /\ fetched = <<>>
 Safety == AtMostOnce /\ OnlyAssigned /\ NotEarly /\ TickOrder /\ TickNotEarly /\ Complete
